@@ -52,6 +52,7 @@ def main():
     ap.add_argument("--tier", default="quick")
     ap.add_argument("--tests", nargs="*", default=None)
     ap.add_argument("--skip-tests", action="store_true")
+    ap.add_argument("--base", default="HEAD", help="commit of /repo the change is applied to (default HEAD); used when a later fix: commit touches the same lines")
     a = ap.parse_args()
     src = Path(a.src) / a.name
     if not src.exists() and (VERIF / "seeded" / a.name).exists():
@@ -61,8 +62,10 @@ def main():
     wt = Path(f"/var/tmp/seedwt-{a.name}")
     sh(["git", "-C", "/repo", "worktree", "remove", "--force", str(wt)])
     sh(["git", "-C", "/repo", "worktree", "prune"])
-    r = sh(["git", "-C", "/repo", "worktree", "add", "-q", str(wt), "HEAD"])
-    rec = {"repo_head": sh(["git", "-C", "/repo", "rev-parse", "--short", "HEAD"]).stdout.strip(), "time": time.strftime("%Y-%m-%d %H:%M")}
+    r = sh(["git", "-C", "/repo", "worktree", "add", "-q", "--detach", str(wt), a.base])
+    rec = {"repo_head": sh(["git", "-C", "/repo", "rev-parse", "--short", a.base]).stdout.strip(), "time": time.strftime("%Y-%m-%d %H:%M")}
+    if a.base != "HEAD":
+        rec["note"] = "applied to an earlier commit of /repo: a later fix: commit touches the lines this change edits"
     try:
         r = sh(["git", "apply", str(src / "patch.diff")], cwd=wt)
         rec["applies"] = r.returncode == 0
